@@ -217,6 +217,13 @@ def request_part(job, r):
             w.last_raw = None
             w.cmd('getconf 0 aggr')
             raws.append(('aggrconf', w.last_raw))
+        else:
+            # version 1 has no configuration PDU of its own: the aggregator's configuration is asked for with an aggregation request that
+            # carries no hash, only the configuration element
+            w.kind = 'aggr'
+            w.last_raw = None
+            w.cmd('getconf 0 aggr')
+            raws.append(('aggrconf', w.last_raw))
         for nm, raw in raws:
             r.observe((nm, version, alg, len(key)))
             if raw is None:
